@@ -360,7 +360,8 @@ class C11(Profile):
             for k in gone:
                 model.pop(k, None)
             world.probe('file_vanished_under_reader')
-            if not out.ok:
+            if not out.ok and not (sw.torn and isinstance(out.exc, (TypeError, ValueError))):
+                # (a truncated file left by an earlier CRASH explains a decode error on its own - that state is tolerated below)
                 raise Violation('read-total', 'C11.read-raised-on-vanished-file/%s/%s' % (kind, type(out.exc).__name__),
                                 dict(exc=repr(out.exc)[:300]))
         world.state(store, kind, fired[0] if fired else '-', out.tag.split(':')[0], 'torn' if sw.torn else '')
